@@ -565,4 +565,88 @@ Section MergeProofs.
   Theorem kmerge_stable : forall runs, Forall P (concat runs) -> Forall sorted runs -> no_cross_ties runs ->
     kmerge cmp runs = isort (concat runs).
   Proof. intros runs HP Hs Hn. unfold kmerge. apply post_stable; auto. apply kmerge_tagged_post; auto. Qed.
+
+  Lemma sortedb_strong : forall l, Forall P l -> sortedb cmp l = true -> sorted l.
+  Proof.
+    induction l as [|x t IH]; intros HP Hs; [constructor|].
+    inversion HP as [|? ? Px HPt]; subst. cbn [sortedb] in Hs.
+    destruct t as [|y t'].
+    - constructor; constructor.
+    - apply andb_true_iff in Hs. destruct Hs as [Hxy Hs].
+      specialize (IH HPt Hs). constructor; auto.
+      inversion IH as [|? ? Hst Hft]; subst. inversion HPt as [|? ? Py HPt']; subst.
+      constructor; auto.
+      rewrite Forall_forall in *. intros z Hz. apply (leb_trans x y z); auto. apply Hft; auto.
+  Qed.
+
+  Lemma strong_sortedb : forall l, sorted l -> sortedb cmp l = true.
+  Proof.
+    induction l as [|x t IH]; intro Hs; [reflexivity|]. inversion Hs as [|? ? Hst Hft]; subst.
+    cbn [sortedb]. destruct t as [|y t']; auto. inversion Hft; subst. apply andb_true_iff. split; auto.
+  Qed.
+
+  Lemma isort_sorted_id : forall l, sorted l -> isort l = l.
+  Proof.
+    induction l as [|x t IH]; intro Hs; [reflexivity|]. inversion Hs as [|? ? Hst Hft]; subst.
+    cbn [Merge.isort]. rewrite IH by auto. destruct t as [|y t']; [reflexivity|].
+    inversion Hft as [|? ? Hxy _]; subst. cbn [Merge.insert]. unfold le in Hxy. rewrite Hxy. reflexivity.
+  Qed.
+
+  Lemma runs_sorted : forall runs, Forall P (concat runs) -> Forall (fun r => sortedb cmp r = true) runs ->
+    Forall sorted runs.
+  Proof.
+    induction runs as [|r rs IH]; intros HP Hb; constructor.
+    - cbn [concat] in HP. apply Forall_app in HP. inversion Hb; subst. apply sortedb_strong; tauto.
+    - cbn [concat] in HP. apply Forall_app in HP. inversion Hb; subst. apply IH; tauto.
+  Qed.
+
+  (** merge_sorted_runs, all three branches *)
+  Theorem merge_sorted_runs_spec : forall runs, Forall P (concat runs) -> Forall (fun r => sortedb cmp r = true) runs ->
+    sorted (merge_sorted_runs cmp runs) /\ Permutation (merge_sorted_runs cmp runs) (concat runs).
+  Proof.
+    intros runs HP Hb.
+    pose proof (runs_sorted runs HP Hb) as Hs.
+    destruct runs as [|r [|r2 rs]].
+    - cbn. split; constructor.
+    - cbn. rewrite app_nil_r. split; auto. inversion Hs; auto.
+    - apply kmerge_sorted_perm; auto.
+  Qed.
+
+  Theorem merge_sorted_runs_stable : forall runs, Forall P (concat runs) -> Forall (fun r => sortedb cmp r = true) runs ->
+    no_cross_ties runs -> merge_sorted_runs cmp runs = isort (concat runs).
+  Proof.
+    intros runs HP Hb Hn.
+    pose proof (runs_sorted runs HP Hb) as Hs.
+    destruct runs as [|r [|r2 rs]].
+    - reflexivity.
+    - cbn. rewrite app_nil_r. symmetry. apply isort_sorted_id. inversion Hs; auto.
+    - apply kmerge_stable; auto.
+  Qed.
+
+  (** the boolean class predicate decides [no_cross_ties] *)
+  Lemma k_cross_ties_false : forall runs, k_cross_ties cmp runs = false -> no_cross_ties runs.
+  Proof.
+    assert (SYM : forall x y, eqvb x y = eqvb y x) by (intros; unfold Merge.eqvb; apply andb_comm).
+    assert (CT : forall r1 r2 x y, cross_tie_b cmp r1 r2 = false -> In x r1 -> In y r2 -> eqvb x y = false).
+    { intros r1 r2 x y H Hx Hy. unfold cross_tie_b in H.
+      destruct (eqvb x y) eqn:E; auto.
+      assert (existsb (fun x => existsb (fun y => eqvb x y) r2) r1 = true).
+      { apply existsb_exists. exists x. split; auto. apply existsb_exists. exists y. auto. }
+      congruence. }
+    induction runs as [|r rs IH]; intros H i j x y Hij Hx Hy.
+    - destruct i; destruct Hx.
+    - cbn [k_cross_ties] in H. apply orb_false_iff in H. destruct H as [H1 H2].
+      assert (H1' : forall r', In r' rs -> cross_tie_b cmp r r' = false).
+      { intros r' Hr'. destruct (cross_tie_b cmp r r') eqn:E; auto.
+        assert (existsb (cross_tie_b cmp r) rs = true) by (apply existsb_exists; eauto). congruence. }
+      destruct i as [|i], j as [|j]; cbn [nth] in *.
+      + congruence.
+      + destruct (Nat.lt_ge_cases j (length rs)) as [Hj|Hj].
+        * apply (CT r (nth j rs [])); auto. apply H1'. apply nth_In. exact Hj.
+        * rewrite nth_overflow in Hy by exact Hj. destruct Hy.
+      + destruct (Nat.lt_ge_cases i (length rs)) as [Hi|Hi].
+        * rewrite SYM. apply (CT r (nth i rs [])); auto. apply H1'. apply nth_In. exact Hi.
+        * rewrite nth_overflow in Hx by exact Hi. destruct Hx.
+      + apply (IH H2 i j); auto.
+  Qed.
 End MergeProofs.
